@@ -54,16 +54,34 @@ partial def globMatch : List Char → List Char → Bool
   | p :: ps, c :: t => p == c && globMatch ps t
   | _ :: _, [] => false
 
-def patternHits (pat : String) (p : RelPath) : Bool :=
-  let cs := pat.toList
-  if cs.isEmpty then false
-  else if cs.getLast? == some '/' then
-    let body := cs.dropLast
-    -- directory pattern: something must follow the matching component
-    (p.dropLast).any fun comp => globMatch body comp.toList
-  else p.any fun comp => globMatch cs comp.toList
+def splitSlash (cs : List Char) : List (List Char) :=
+  cs.foldr (fun c acc => if c == '/' then [] :: acc else match acc with | h :: t => (c :: h) :: t | [] => [[c]]) [[]]
 
-def fragmentMatcher : Matcher := fun pats p => pats.any fun pat => patternHits pat p
+/-- one pattern (without a leading `!`).  No slash except possibly at the end: matched against every component (a
+matching folder hides what is below it).  A slash at the beginning or in the middle anchors the pattern at the root:
+its components are matched against the leading components of the path.  A trailing slash demands a directory: since
+the tool asks without a trailing slash, something has to follow the matched part. -/
+def patternHitsCore (cs : List Char) (p : RelPath) : Bool :=
+  if cs.isEmpty then false
+  else
+    let dirOnly := cs.getLast? == some '/'
+    let body := if dirOnly then cs.dropLast else cs
+    if !body.contains '/' then
+      (if dirOnly then p.dropLast else p).any fun comp => globMatch body comp.toList
+    else
+      let comps := splitSlash (match body with | '/' :: r => r | r => r)
+      let k := comps.length
+      (if dirOnly then decide (p.length > k) else decide (p.length ≥ k)) &&
+        (List.zip comps (p.take k)).all fun (c, s) => globMatch c s.toList
+
+def patternHits (pat : String) (p : RelPath) : Bool := patternHitsCore pat.toList p
+
+/-- gitwildmatch: the LAST pattern that matches decides; `!pattern` re-includes -/
+def fragmentMatcher : Matcher := fun pats p =>
+  pats.foldl (fun acc pat =>
+    match pat.toList with
+    | '!' :: r => if patternHitsCore r p then false else acc
+    | cs => if patternHitsCore cs p then true else acc) false
 
 /-! ### JSON decoding -/
 
